@@ -64,7 +64,10 @@ func Tokenize(s string) (toks Tokens) {
 			if tok.Offset == -1 {
 				tok.Offset = i
 			}
-			tok.Text += string(r)
+			// Append the bytes as they are in s rather than string(r): for
+			// invalid UTF-8 r is utf8.RuneError, whose encoding is three bytes
+			// long, and the token's text would no longer match s at Offset.
+			tok.Text += s[i : i+size]
 		}
 		i += size
 	}
